@@ -81,6 +81,8 @@ type Case struct {
 	Via   string     `json:"via,omitempty"` // native: how the native form goes back; bridge: which bridge
 	Go    *GoVal     `json:"go,omitempty"`
 	Texts []HistText `json:"texts,omitempty"`
+	Int   *IntCase   `json:"int,omitempty"`
+	Docs  []*Node    `json:"docs,omitempty"`  // multi: the documents the text holds, in order
 	Probe string     `json:"probe,omitempty"` // name of the deterministic probe block the case belongs to
 }
 
@@ -440,7 +442,7 @@ func probeScalars() []probeScalar {
 
 var (
 	pScalars    = probeScalars()
-	textEntries = []string{"make-bag", "make-instance", "bag-parse", "send-parse", "json-parse", "json-parse-strict", "bag-read", "init-read", "make-bag-octets"}
+	textEntries = []string{"make-bag", "make-instance", "bag-parse", "send-parse", "json-parse", "json-parse-strict", "bag-read", "init-read", "make-bag-octets", "load-bag", "each-bag-stream", "each-bag-file", "json-parse-stream"}
 )
 
 // text probe i: scalar s (as array element, object value and, for strings,
@@ -786,9 +788,9 @@ func randSetValue(r *rand.Rand, scalarOnly bool, rich bool) (*Node, string) {
 			v = randTime(r)
 		}
 	case hasEmptyOrSpecial(v):
-		mode = fw.Pick(r, []string{"bag", "text"})
+		mode = fw.Pick(r, []string{"bag", "text", "stream"})
 	default:
-		mode = fw.Pick(r, []string{"lisp", "lisp", "bag", "text"})
+		mode = fw.Pick(r, []string{"lisp", "lisp", "bag", "text", "stream"})
 	}
 	return v, mode
 }
@@ -807,7 +809,7 @@ func randHistory(r *rand.Rand, doc *Node, n int, rich bool, dirty bool) []Op {
 			// avoided (finding "multi-location-container-set"): a container
 			// value stored through a wildcard ends up shared by all matches
 			op.Val, op.ValMode = randSetValue(r, op.Path.hasDescent() || (!dirty && !op.Path.definite()), rich)
-			if op.ValMode == "text" {
+			if op.ValMode == "text" || op.ValMode == "stream" {
 				op.Op = "parse"
 			}
 			if res, st, _, _ := modelSet(cur, op.Path, op.Val); st == stOK {
@@ -844,7 +846,7 @@ func randHistory(r *rand.Rand, doc *Node, n int, rich bool, dirty bool) []Op {
 			op.Path = Path{}
 			op.NoPath = true
 			op.Val, op.ValMode = randSetValue(r, false, rich)
-			if op.ValMode == "text" {
+			if op.ValMode == "text" || op.ValMode == "stream" {
 				op.Op = "parse"
 			}
 			if !op.Val.isContainer() {
@@ -1034,11 +1036,13 @@ func genHist(r *rand.Rand, i int) Case {
 
 type layout struct {
 	textProbes, nativeProbes, bridgeProbes, pathProbes, histProbes int
+	intProbes, gridProbes, removeProbes, multiProbes               int
 	random                                                         int
 }
 
 func layoutFor(tier string) layout {
-	l := layout{textProbes: nTextProbes(), nativeProbes: nNativeProbes(), bridgeProbes: nBridgeProbes(), pathProbes: nPathProbes(), histProbes: nHistProbes()}
+	l := layout{textProbes: nTextProbes(), nativeProbes: nNativeProbes(), bridgeProbes: nBridgeProbes(), pathProbes: nPathProbes(), histProbes: nHistProbes(),
+		intProbes: nIntProbes(), gridProbes: nGridProbes(), removeProbes: nRemoveProbes(), multiProbes: nMultiProbes()}
 	l.random = 14000
 	if tier == "thorough" {
 		l.random = 260000
@@ -1048,7 +1052,7 @@ func layoutFor(tier string) layout {
 
 func nCases(tier string) int {
 	l := layoutFor(tier)
-	return l.textProbes + l.nativeProbes + l.bridgeProbes + l.pathProbes + l.histProbes + l.random
+	return l.textProbes + l.nativeProbes + l.bridgeProbes + l.pathProbes + l.histProbes + l.intProbes + l.gridProbes + l.removeProbes + l.multiProbes + l.random
 }
 
 func gen(r *rand.Rand, i int, tier string) Case {
@@ -1073,6 +1077,22 @@ func gen(r *rand.Rand, i int, tier string) Case {
 		return histProbe(i)
 	}
 	i -= l.histProbes
+	if i < l.intProbes {
+		return intProbe(i)
+	}
+	i -= l.intProbes
+	if i < l.gridProbes {
+		return gridProbe(i)
+	}
+	i -= l.gridProbes
+	if i < l.removeProbes {
+		return removeProbe(i)
+	}
+	i -= l.removeProbes
+	if i < l.multiProbes {
+		return multiProbe(i)
+	}
+	i -= l.multiProbes
 	deep := 3
 	if tier == "thorough" {
 		deep = 5
@@ -1085,12 +1105,21 @@ func gen(r *rand.Rand, i int, tier string) Case {
 	case 3:
 		return genNative(r, deep, i)
 	case 4, 5, 6, 7:
+		if (i/10)%4 == 2 {
+			return genRemovePath(r, i)
+		}
 		return genPath(r, i)
 	case 8:
+		if (i/10)%3 == 1 {
+			return genInts(r)
+		}
 		return genBridge(r, i)
 	default:
-		if (i/10)%3 == 0 {
+		switch (i / 10) % 3 {
+		case 0:
 			return genHist(r, i)
+		case 1:
+			return genMulti(r, i)
 		}
 		return genBridge(r, i)
 	}
@@ -1150,6 +1179,10 @@ func genText(r *rand.Rand, depth int, i int) Case {
 	}
 	if c.Entry == "json-parse-strict" && sen {
 		c.Entry = "json-parse"
+	}
+	if (c.Entry == "each-bag-stream" || c.Entry == "each-bag-file" || c.Entry == "json-parse-stream") && !doc.isContainer() {
+		// a stream of documents: scalars at the top level are not self-delimiting
+		c.Entry = "load-bag"
 	}
 	if tc != nil {
 		// json-parse and discover-json hand out the parsed data as it is; only
